@@ -19,23 +19,28 @@ pub mod c07;
 pub mod c08;
 pub mod c08alloc;
 pub mod c08gen;
+pub mod c08reader;
 pub mod c09;
 pub mod c10;
 pub mod c10_pool;
+pub mod c10_meta;
 pub mod c11;
 pub mod c11_conn;
 pub mod c11_plan;
 pub mod c12;
 pub mod c13;
+pub mod c13_cfg;
 pub mod c13_lbscript;
 pub mod c14;
 pub mod c14s;
 pub mod c15;
 pub mod c18;
+pub mod c18_page;
 pub mod c19;
 pub mod c19_race;
 pub mod c19_worker;
 pub mod c19_producer;
+pub mod c19_evwait;
 pub mod c20;
 pub mod c16;
 pub mod c16_structs;
